@@ -191,3 +191,11 @@ def maybe_bystanders(rng, sched, P, prob=0.12, maxtotal=16):
         k = 1 if (rng.random() < 0.7 or P + 2 > maxtotal) else 2
         sched['bystanders'] = sorted(rng.sample(range(P + k), k))
     return sched
+
+
+def fresh(name):
+    """An equal but distinct str object (layout names reach the library parsed from files, formatted, unpickled:
+    identity of the object must not matter).  Subclasses (salted names) are passed through."""
+    if type(name) is str and len(name) > 1:
+        return name[:1] + name[1:]
+    return name
